@@ -15,7 +15,8 @@ HYPOTHESIS_DIRECT = False
 RULE = ("plans of 0-150 steps (and, 1 in 19, of 151-1200 / 5000 steps: texts beyond the usual buffer sizes) over names with letters, digits, '-' and '_', rendered as Metric-FF logs (real FF header "
         "lines, varied indentation / step-number width, trailers: blank lines, 'plan cost: ..', 'time spent: ..', "
         "word-only lines; LF and CRLF) and as ENHSP plans (one '(name args)' per line, mixed case); logs without a plan "
-        "carrying one of the three no-solution markers or none.  Non-trivial = >= 11 steps (two number widths) or a "
+        "carrying one of the three no-solution markers or none; the text sits in a fresh file or (40 %) in a file name at "
+        "which another plan was parsed just before.  Non-trivial = >= 11 steps (two number widths) or a "
         "trailer line made only of word characters directly after the plan.  Distinct by log text.")
 ASSUMPTIONS = ["noise lines never contain a digit immediately followed by ': ' (such a line is syntactically a plan step)",
                "action and argument names start with a letter"]
@@ -102,7 +103,17 @@ def check_case(case):
     if case["format"] == "enhsp":
         from pddl_plus_parser.exporters import ENHSPParser
         text = render_enhsp(case)
-        p = write_tmp(text, suffix=".plan", newline="")
+        if case.get("reuse_path"):
+            # planners write every plan to the same file name: parse a different plan at this path first
+            p = tmpdir() / "solver_plan.sol"
+            with open(p, "w", newline="") as fh:
+                fh.write("(decoy-first x)\n(decoy-second y z)\n")
+            lib_call(ENHSPParser.parse_plan_content, Path(p))
+            lib_call(ENHSPParser().parse_plan, Path(p))
+            with open(p, "w", newline="") as fh:
+                fh.write(text)
+        else:
+            p = write_tmp(text, suffix=".plan", newline="")
         res.key = "enhsp\x00" + text
         res.nontrivial = len(exp) >= 2
         res.classes = ["enhsp"]
@@ -123,7 +134,16 @@ def check_case(case):
         return res
     from pddl_plus_parser.exporters import MetricFFParser
     text = render_ff(case)
-    p = write_tmp(text, suffix=".out", newline="")
+    if case.get("reuse_path"):
+        p = tmpdir() / "solver_log.out"
+        with open(p, "w", newline="") as fh:
+            fh.write("ff: found legal plan as follows\n\nstep    0: DECOY-FIRST X\n        1: DECOY-SECOND Y Z\n\ntime spent:    0.00 seconds total time\n")
+        lib_call(MetricFFParser().get_solving_status, Path(p))
+        lib_call(MetricFFParser().parse_plan, Path(p), tmpdir() / "solver_log.out.plan")
+        with open(p, "w", newline="") as fh:
+            fh.write(text)
+    else:
+        p = write_tmp(text, suffix=".out", newline="")
     has_plan = case["status"] == "plan"
     word_trailer = has_plan and bool(case["trailer"]) and bool(case["trailer"][0].strip()) and \
         all(c.isalnum() or c in " _-" for c in case["trailer"][0])
@@ -189,14 +209,16 @@ def gen_plan(ch, maxlen):
 def gen(ch, tier):
     fmt = ch.weighted([(4, "ff"), (1, "enhsp")])
     if fmt == "enhsp":
-        return {"format": "enhsp", "plan": gen_plan(ch, 1200 if tier == "quick" else 5000), "eol": ch.choice(["\n", "\n", "\r\n"]), "phase": ch.int(0, 1)}
+        return {"format": "enhsp", "plan": gen_plan(ch, 1200 if tier == "quick" else 5000), "eol": ch.choice(["\n", "\n", "\r\n"]), "phase": ch.int(0, 1),
+                "reuse_path": ch.flag(0.4)}
     status = ch.weighted([(6, "plan"), (1, "none")] + [(1, m) for m in NO_SOLUTION])
     plan = gen_plan(ch, 1200 if tier == "quick" else 5000) if status == "plan" else []
     width = max(ch.int(1, 5), len(str(max(len(plan) - 1, 0))))
     return {"format": "ff", "plan": plan, "status": status,
             "header": [ch.choice(HEADERS) for _ in range(ch.int(0, 8))],
             "trailer": [ch.choice(TRAILERS) for _ in range(ch.int(0, 5))],
-            "width": width, "indent": ch.int(0, 10), "eol": ch.choice(["\n", "\n", "\r\n"]), "upper": ch.flag(0.8)}
+            "width": width, "indent": ch.int(0, 10), "eol": ch.choice(["\n", "\n", "\r\n"]), "upper": ch.flag(0.8),
+            "reuse_path": ch.flag(0.4)}
 
 
 def corpus():
